@@ -3,6 +3,7 @@
 Equality is Draft 6 instance equality: ``true != 1``, ``1 == 1.0``,
 arrays index-wise, objects key-wise.
 """
+import copy
 import hashlib
 import json
 import math
@@ -121,6 +122,26 @@ def json_values(extra=None, max_leaves=12):
         ),
         max_leaves=max_leaves,
     )
+
+
+@st.composite
+def nested_literals(draw):
+    """Literals whose dicts sit at every kind of position: dict in list in dict, dict in list in list, ...
+    (the documented loading pipeline annotates EVERY dict of a document, literal or not; the parser has to
+    strip those annotations wherever they are)."""
+    leaf = draw(st.sampled_from([{"k": 1}, {}, {"host": "a", "port": 80}, {"a": {"b": None}}, {"type": "object"},
+                                 {"title": "t"}, {"k": [1, 2]}]))
+    value = copy.deepcopy(leaf)
+    for wrap in draw(st.lists(st.sampled_from(["list", "list", "dict", "list+", "dict+"]), min_size=1, max_size=4)):
+        if wrap == "list":
+            value = [value]
+        elif wrap == "list+":
+            value = [draw(scalars), value, {"z": 0}]
+        elif wrap == "dict":
+            value = {draw(st.sampled_from(["servers", "a", "items", "properties"])): value}
+        else:
+            value = {"first": draw(scalars), "m": value, "last": [{"q": None}]}
+    return value
 
 
 def lookalike(v):
